@@ -1,5 +1,6 @@
 import BppModel.Proto
 import BppModel.VecTools
+import BppModel.VecTools2
 import BppModel.LogSpace
 /-
 Driver for C07.  Every operation is self-contained:
@@ -181,6 +182,421 @@ def elemOk (ref : Rat → Rat → Option Rat) (a b : List Float) (got : List Flo
 def specCovScale (x y : List Rat) (denom : Rat) : Rat :=
   let mx := rabs (Spec.mean x); let my := rabs (Spec.mean y)
   S (List.zipWith (fun a b => (rabs a + mx) * (rabs b + my)) x y) / (if denom = 0 then 1 else rabs denom)
+
+
+/-! ### round 2: the remaining routines of VectorTools.h / VectorTools.cpp / NumTools.h -/
+
+/-- bitwise equality of vectors (all NaNs alike) -/
+def sameV (a b : List Float) : Bool := showV a == showV b
+
+def showVV (vs : List (List Float)) : String :=
+  if vs.isEmpty then "none" else " ; ".intercalate (vs.map showV)
+
+def implVV? (t : List String) : Option (List (List Float)) :=
+  if t == ["none"] then some [] else (splitTok ";" t).mapM implVec?
+
+/-- several answers separated by `;` -/
+def onParts (impl : Option (List String)) (clause0 : String) (f : List (List String) → List (String × Bool)) : String :=
+  match impl with
+  | none => "-"
+  | some t => if (t.head?.getD "").startsWith "exc:" || t == ["ub"] then "FAIL:" ++ clause0 else checks (f (splitTok ";" t))
+
+/-- whole number carried as a double -/
+def natOf? (x : Float) : Option Nat :=
+  if x.isNaN || x < 0.0 || x > 4294967296.0 || x.floor != x then none else some x.toUInt64.toNat
+
+def truncInt (x : Float) : Int := x.toInt64.toInt
+
+/-- exact reference for the weighted covariance (`Spec.covW` at `Rat`) with the scale of its
+rounding error; `none` when the formula divides by (nearly) zero -/
+def refCovW (x y wr : List Rat) (u nw : Bool) : Option (Rat × Rat) :=
+  let sw := S wr
+  if nw && sw == 0 then none else
+  let wn := if nw then wr.map (· / sw) else wr
+  let mx := Spec.dot x wn; let my := Spec.dot y wn
+  let sc := Spec.dotW (x.map (fun a => rabs a + rabs mx)) (y.map (fun a => rabs a + rabs my)) (wn.map rabs)
+  let d := 1 - Spec.dot wn wn
+  if u && rabs d * 1024 < 1 then none
+  else some (Spec.covW x y wr u nw, if u then sc / rabs d else sc)
+
+/-- the answer `g` of a weighted `sd` against the exact variance `c` (scale `sc`) -/
+def sdOk (g : Float) (c sc : Rat) : Bool :=
+  if c < -(pow2neg 30 * sc) - tiny then g.isNaN            -- square root of a negative variance
+  else if c ≤ pow2neg 30 * sc + tiny then true             -- variance is rounding noise: either
+  else match floatToRat? g with
+    | some gr => gr ≥ 0 && rabs (gr * gr - c) ≤ tolAcc * sc + tiny
+    | none => false
+
+/-- a rational to the nearest-ish double (used for references that involve a square root) -/
+def ratToFloat (q : Rat) : Float :=
+  let s : Int := (q.num * (2 ^ 80 : Nat)) / (q.den : Int)
+  Float.ofInt s / Float.ofNat (2 ^ 80)
+
+def factR : Nat → Rat
+  | 0 => 1
+  | n + 1 => ((n + 1 : Nat) : Rat) * factR n
+
+/-- nested sizes of a 3- or 4-dimensional array: the common size of the sub-arrays at each level
+(`-` when there is none, `x` when they differ) -/
+def commonSize (l : List Nat) : String :=
+  match l with
+  | [] => "-"
+  | a :: rest => if rest.all (· == a) then toString a else "x"
+
+def dims3 (a : List (List (List Float))) : String :=
+  toString a.length ++ " " ++ commonSize (a.map (·.length)) ++ " " ++
+    commonSize (a.flatten.map (·.length)) ++ " " ++ showF (fsum a.flatten.flatten)
+
+def dims4 (a : List (List (List (List Float)))) : String :=
+  toString a.length ++ " " ++ commonSize (a.map (·.length)) ++ " " ++
+    commonSize (a.flatten.map (·.length)) ++ " " ++ commonSize (a.flatten.flatten.map (·.length)) ++ " " ++
+    showF (fsum a.flatten.flatten.flatten)
+
+def step2 (s : St) (name : String) (flags : List String) (vs : List (List Float)) (impl : Option (List String)) :
+    St × String × String :=
+  let bad : St × String × String := (s, "bad-op", "-")
+  let fl (i : Nat) : Bool := flags.getD i "0" == "1"
+  let v0 := vs.getD 0 []; let v1 := vs.getD 1 []; let v2 := vs.getD 2 []
+  let dimOr (a b : List Float) (k : Unit → String) : String :=
+    if a.length != b.length then expectErr impl "mismatch_raises" .dimension else k ()
+  match name with
+  -- ------------------------------------------------------------ weighted moments, every option pair
+  | "sdw" =>
+    let unbiased := fl 0; let normalize := fl 1
+    (s, showRes showF (VecTools.sdW v0 v1 unbiased normalize), dimOr v0 v1 fun _ => onScalar impl "sdW_spec" fun g =>
+      match rats? v0, rats? v1 with
+      | some x, some wr => match refCovW x x wr unbiased normalize with
+        | some (c, sc) => [("sdW_spec", sdOk g c sc)]
+        | none => []
+      | _, _ => [])
+  | "covw4" | "varw4" =>
+    let unbiased := fl 0; let normalize := fl 1
+    let isCov := name == "covw4"
+    let b := if isCov then v1 else v0
+    let w := if isCov then v2 else v1
+    (s, showRes showF (if isCov then VecTools.covW v0 v1 w unbiased normalize else VecTools.varW v0 w unbiased normalize),
+      if v0.length != w.length || b.length != w.length then expectErr impl "mismatch_raises" .dimension
+      else onScalar impl "covW_flags_spec" fun g =>
+        match rats? v0, rats? b, rats? w with
+        | some x, some y, some wr => match refCovW x y wr unbiased normalize with
+          | some (c, sc) => [(if isCov then "covW_flags_spec" else "varW_spec", closeTo g c sc)]
+          | none => []
+        | _, _, _ => [])
+  | "cosw" =>
+    (s, showRes showF (VecTools.cosW v0 v1 v2),
+      if v0.length != v2.length || v1.length != v2.length then expectErr impl "mismatch_raises" .dimension
+      else onScalar impl "cosW_spec" fun g =>
+        match rats? v0, rats? v1, rats? v2 with
+        | some a, some b, some w =>
+          let sab := Spec.dotW a b w; let A := Spec.dotW a a w; let B := Spec.dotW b b w
+          if w.all (· ≥ 0) && A > pow2neg 200 && B > pow2neg 200 then
+            match floatToRat? g with
+            | some gr =>
+              [("cosW_range", gr * gr ≤ 1 + pow2neg 30),
+               ("cosW_spec", rabs (gr * gr * A * B - sab * sab) ≤ pow2neg 30 * (A * B)),
+               ("cosW_spec", (gr ≥ 0) == (sab ≥ 0) || rabs gr ≤ pow2neg 20)]
+            | none => [("cosW_spec", false)]
+          else []
+        | _, _, _ => [])
+  | "kron" =>
+    (s, showV (VecTools.kroneckerMult v0 v1), onVec impl "kroneckerMult_spec" fun g =>
+      let n2 := v1.length
+      [("kroneckerMult_spec", g.length == v0.length * n2 &&
+          (List.zip g (List.range g.length)).all (fun p =>
+            match v0[p.2 / n2]?, v1[p.2 % n2]? with
+            | some a, some b => showF p.1 == showF (a * b)
+            | _, _ => false))])
+  -- ------------------------------------------------------------ compound operators with a constant
+  | "fillc" | "fill" =>
+    match v1 with
+    | [c] => (s, showV (VecTools.fillC v0 c), onVec impl "compoundC_spec" fun g =>
+        [("compoundC_spec", sameV g (List.replicate v0.length c))])
+    | _ => bad
+  | "addceq" | "subceq" | "mulceq" | "divceq" =>
+    match elementwise (name.take 3).toString, v1 with
+    | some (f, ref), [c] =>
+      (s, showV (v0.map (fun x => f x c)),
+        onVec impl "compoundC_spec" fun g => [("compoundC_spec", elemOk ref v0 (v0.map fun _ => c) g)])
+    | _, _ => bad
+  -- ------------------------------------------------------------ element-wise functions
+  | "vlog" => (s, showV (VecTools.vlog v0), onVec impl "elementwise_fun_spec" fun g => [("elementwise_fun_spec", sameV g (v0.map Float.log))])
+  | "vexp" => (s, showV (VecTools.vexp v0), onVec impl "elementwise_fun_spec" fun g => [("elementwise_fun_spec", sameV g (v0.map Float.exp))])
+  | "vcos" => (s, showV (VecTools.vmap Float.cos v0), onVec impl "elementwise_fun_spec" fun g => [("elementwise_fun_spec", sameV g (v0.map Float.cos))])
+  | "vsin" => (s, showV (VecTools.vmap Float.sin v0), onVec impl "elementwise_fun_spec" fun g => [("elementwise_fun_spec", sameV g (v0.map Float.sin))])
+  | "vlog10" => (s, showV (VecTools.vmap Float.log10 v0), onVec impl "elementwise_fun_spec" fun g => [("elementwise_fun_spec", sameV g (v0.map Float.log10))])
+  | "vsqr" => (s, showV (VecTools.vsqr v0), onVec impl "elementwise_fun_spec" fun g => [("elementwise_fun_spec", sameV g (v0.map (fun x => x * x)))])
+  | "vabs" => (s, showV (VecTools.vabs v0), onVec impl "elementwise_fun_spec" fun g =>
+      [("elementwise_fun_spec", g.length == v0.length && (List.zip g v0).all (fun p => p.2.isNaN || (p.1 ≥ 0.0 && (p.1 == p.2 || p.1 == -p.2))))])
+  | "vlogb" =>
+    match v0 with
+    | [b] => (s, showV (VecTools.vlogBase v1 b), onVec impl "elementwise_fun_spec" fun g =>
+        [("elementwise_fun_spec", sameV g (v1.map (fun x => Float.log x / Float.log b)))])
+    | _ => bad
+  | "vpow" =>
+    match v0 with
+    | [b] => (s, showV (VecTools.vpow v1 b), onVec impl "elementwise_fun_spec" fun g =>
+        [("elementwise_fun_spec", sameV g (v1.map (fun x => Float.pow x b)))])
+    | _ => bad
+  | "vfact" =>
+    (s, showRes showV (VecTools.vfact natOf? v0), onVec impl "fact_spec" fun g =>
+      match v0.mapM natOf? with
+      | some ns => [("fact_spec", g.length == ns.length && (List.zip g ns).all (fun p =>
+          if p.2 ≤ 18 then isRat p.1 (factR p.2) else closeTo p.1 (factR p.2) (factR p.2)))]
+      | none => [])
+  -- ------------------------------------------------------------ NumTools scalar helpers
+  | "ntabs" | "ntsign" | "ntsqr" | "ntfact" | "ntlogfact" =>
+    match v0 with
+    | [a] =>
+      let m : String := match name with
+        | "ntabs" => showF (VecTools.ntAbs a)
+        | "ntsign" => showF (VecTools.ntSign a)
+        | "ntsqr" => showF (VecTools.ntSqr a)
+        | "ntfact" => showRes showF (VecTools.ntFact natOf? a)
+        | _ => showRes showF (VecTools.ntLogFact natOf? a)
+      (s, m, onScalar impl "ntScalar_spec" fun g =>
+        match floatToRat? a with
+        | none => []
+        | some r =>
+          match name with
+          | "ntabs" => [("ntAbs_spec", isRat g (rabs r))]
+          | "ntsign" => [("ntSign_spec", isRat g (if r < 0 then -1 else if r = 0 then 0 else 1))]
+          | "ntsqr" => [("ntSqr_spec", closeTo g (r * r) (r * r) tolOne)]
+          | "ntfact" => match natOf? a with
+            | some n => [("fact_spec", if n ≤ 18 then isRat g (factR n) else closeTo g (factR n) (factR n))]
+            | none => []
+          | _ => match natOf? a with
+            | some n => [("fact_spec", n > 170 || fclose g (Float.log (fsum [(List.range n).foldl (fun p i => p * Float.ofNat (i + 1)) 1.0])) 1e-12)]
+            | none => [])
+    | _ => bad
+  | "ntmax" | "ntmin" | "ntsign2" =>
+    match v0 with
+    | [a, b] =>
+      let m := if name == "ntmax" then VecTools.ntMax a b else if name == "ntmin" then VecTools.ntMin a b else VecTools.ntSign2 a b
+      (s, showF m, onScalar impl "ntScalar_spec" fun g =>
+        match floatToRat? a, floatToRat? b with
+        | some x, some y =>
+          if name == "ntmax" then [("ntMax_spec", isRat g (if x < y then y else x))]
+          else if name == "ntmin" then [("ntMin_spec", isRat g (if y < x then y else x))]
+          else [("ntSign2_spec", isRat g (rabs x * (if y < 0 then -1 else if y = 0 then 0 else 1)))]
+        | _, _ => [])
+    | _ => bad
+  | "ntswap" =>
+    match v0 with
+    | [a, b] => let r := VecTools.ntSwap a b
+      (s, showV [r.1, r.2], onVec impl "ntSwap_shift_spec" fun g => [("ntSwap_shift_spec", sameV g [b, a])])
+    | [a, b, c] => let r := VecTools.ntShift3 a b c
+      (s, showV [r.1, r.2], onVec impl "ntSwap_shift_spec" fun g => [("ntSwap_shift_spec", sameV g [b, c])])
+    | [a, b, c, d] => let r := VecTools.ntShift4 a b c d
+      (s, showV [r.1, r.2.1, r.2.2], onVec impl "ntSwap_shift_spec" fun g => [("ntSwap_shift_spec", sameV g [b, c, d])])
+    | _ => bad
+  -- ------------------------------------------------------------ histogram helpers
+  | "breaks" =>
+    match v0 with
+    | [nf] => match natOf? nf with
+      | some n =>
+        (s, showRes showV (VecTools.breaks v1 n),
+          if v1.isEmpty then expectErr impl "empty_raises" .empty
+          else onVec impl "breaks_spec" fun g =>
+            match rats? v1 with
+            | some r =>
+              let lo := r.foldl (fun m x => if x < m then x else m) (r.headD 0)
+              let hi := r.foldl (fun m x => if x > m then x else m) (r.headD 0)
+              let sc := rabs lo + rabs hi
+              [("breaks_spec", g.length == n + 1 &&
+                  (List.zip (g.take n) (List.range n)).all (fun p =>
+                    closeTo p.1 (lo + (hi - lo) / (n : Rat) * (p.2 : Rat)) sc (pow2neg 48)) &&
+                  (match g.getLast? with | some l => isRat l hi | none => false))]
+            | none => [])
+      | none => bad
+    | _ => bad
+  | "nclass" =>
+    (s, showRes toString (VecTools.nclassScott (fun x => if x.isNaN || x < 0.0 || x > 1e18 then none else some x.ceil.toUInt64.toNat) v0),
+      if v0.isEmpty then expectErr impl "empty_raises" .empty
+      else onNat impl "nclassScott_spec" fun k =>
+        match rats? v0 with
+        | some r =>
+          let n := r.length
+          if n < 2 then [] else
+          let lo := r.foldl (fun m x => if x < m then x else m) (r.headD 0)
+          let hi := r.foldl (fun m x => if x > m then x else m) (r.headD 0)
+          let var := Spec.cov r r true
+          if var ≤ 0 then [] else
+          let t := ratToFloat (hi - lo) / (3.5 * Float.sqrt (ratToFloat var) * Float.pow (Float.ofNat n) (-1.0 / 3.0))
+          [("nclassScott_spec", (t * (1.0 - 1e-9)).ceil ≤ Float.ofNat k && Float.ofNat k ≤ (t * (1.0 + 1e-9)).ceil)]
+        | none => [])
+  -- ------------------------------------------------------------ extract, countValues
+  | "extract" =>
+    match v0.mapM natOf? with
+    | some pos =>
+      (s, showRes showV (VecTools.extract v1 pos), onVec impl "extract_spec" fun g =>
+        if pos.all (· < v1.length) then [("extract_spec", sameV g (pos.filterMap (fun p => v1[p]?)))] else [])
+    | none => bad
+  | "countvalues" =>
+    let m := VecTools.countValues flt v0
+    (s, (if m.isEmpty then "-" else " ".intercalate (m.map (fun kc => showF kc.1 ++ " " ++ toString kc.2))),
+      match impl with
+      | none => "-"
+      | some t =>
+        let rec pairs : List String → Option (List (Float × Nat))
+          | [] => some []
+          | [_] => none
+          | k :: c :: rest => match implFloat? k, nat? c, pairs rest with
+            | some kf, some cn, some r => some ((kf, cn) :: r)
+            | _, _, _ => none
+        match (if t == ["-"] then some [] else pairs t) with
+        | some kc =>
+          if !(noNaN v0) then "ok" else
+          checks [("countValues_spec", decide (StrictSorted flt (kc.map (·.1))) &&
+                    kc.all (fun p => p.2 == (v0.filter (· == p.1)).length && p.2 > 0) &&
+                    v0.all (fun x => kc.any (fun p => p.1 == x)))]
+        | none => "FAIL:countValues_spec")
+  -- ------------------------------------------------------------ lists of vectors (`; v1 ; v2 …`)
+  | "unionlist" =>
+    let l := vs.drop 1
+    (s, showV (VecTools.vectorUnionList feq l), onVec impl "unionList_shape" fun g =>
+      if l.all noNaN then [("unionList_shape", decide (IsUnionList feq l g))] else [])
+  | "interlist" =>
+    let l := vs.drop 1
+    (s, showV (VecTools.vectorIntersectionList feq l), onVec impl "interList_shape" fun g =>
+      if l.all noNaN then [("interList_shape", decide (IsInterList feq l g))] else [])
+  | "appendlist" =>
+    let l := vs.drop 1
+    (s, showV (VecTools.appendAll l), onVec impl "appendAll_spec" fun g => [("appendAll_spec", sameV g l.flatten)])
+  | "extend" =>
+    (s, showV (VecTools.extend feq v0 v1), onVec impl "extend_spec" fun g =>
+      if noNaN v0 && noNaN v1 then [("extend_spec", decide (IsUnion feq v0 v1 g))] else [])
+  | "append2" => (s, showV (VecTools.append2 v0 v1), onVec impl "append_prepend_spec" fun g => [("append_prepend_spec", sameV g (v0 ++ v1))])
+  | "prepend" => (s, showV (VecTools.prepend v0 v1), onVec impl "append_prepend_spec" fun g => [("append_prepend_spec", sameV g (v1 ++ v0))])
+  | "rep" =>
+    match v0 with
+    | [nf] => match natOf? nf with
+      | some n => (s, showRes showV (VecTools.rep v1 n), onVec impl "rep_spec" fun g =>
+          [("rep_spec", sameV g (Spec.repeatList v1 n))])
+      | none => bad
+    | _ => bad
+  -- ------------------------------------------------------------ overloads that sort in place
+  | "havesame2" | "containsall2" =>
+    let r := if name == "havesame2" then VecTools.haveSameElementsInPlace feq flt v0 v1 else VecTools.containsAllInPlace feq flt v0 v1
+    (s, showBool r.1 ++ " ; " ++ showV r.2.1 ++ " ; " ++ showV r.2.2,
+      onParts impl "inPlace_spec" fun parts =>
+        match parts, rats? v0, rats? v1 with
+        | [[b], a', b'], some a, some bb =>
+          match implVec? a', implVec? b' with
+          | some ga, some gb => match rats? ga, rats? gb with
+            | some ra, some rb =>
+              let sortedOrSame (orig got : List Rat) : Bool :=
+                if name == "havesame2" && a.length != bb.length then got == orig else decide (IsSortOf rlt orig got)
+              [((if name == "havesame2" then "haveSameInPlace_spec" else "containsAllInPlace_spec"),
+                  b == showBool (if name == "havesame2" then decide (a.Perm bb) else bb.all (fun x => a.any (· == x)))),
+               ("inPlace_sorted", sortedOrSame a ra && sortedOrSame bb rb)]
+            | _, _ => [("inPlace_spec", false)]
+          | _, _ => [("inPlace_spec", false)]
+        | [_, _, _], _, _ => []
+        | _, _, _ => [("inPlace_spec", false)])
+  | "diff3" =>
+    let r := VecTools.diff3 feq flt v0 v1 v2
+    (s, showV r.1 ++ " ; " ++ showV r.2.1 ++ " ; " ++ showV r.2.2,
+      onParts impl "diff3_spec" fun parts =>
+        match parts.mapM implVec?, rats? v0, rats? v1, rats? v2 with
+        | some [ga, gb, gc], some a, some b, some c =>
+          match rats? ga, rats? gb, rats? gc with
+          | some ra, some rb, some rc =>
+            [("diff3_spec", rc.take c.length == c && decide (IsDiff req rlt a b (rc.drop c.length))),
+             ("inPlace_sorted", decide (IsSortOf rlt a ra) && decide (IsSortOf rlt b rb))]
+          | _, _, _ => [("diff3_spec", false)]
+        | some [_, _, _], _, _, _ => []
+        | _, _, _, _ => [("diff3_spec", false)])
+  -- ------------------------------------------------------------ mixed-type overloads (U = int)
+  | "containsu" =>
+    match v0 with
+    | [el] => let k := truncInt el
+      (s, showBool (VecTools.containsU feq (fun (i : Int) => Float.ofInt i) v1 k),
+        onBool impl "containsU_spec" (v1.any (fun y => y == Float.ofInt k)))
+    | _ => bad
+  | "intertu" =>
+    let v2i := v1.map truncInt
+    (s, showV (VecTools.vectorIntersectionTU truncInt (fun (a b : Int) => a == b) v0 v2i), onVec impl "interTU_spec" fun g =>
+      [("interTU_spec", sameV g (v0.filter (fun x => v2i.any (fun y => y == truncInt x))))])
+  -- ------------------------------------------------------------ resize
+  | "resize2" =>
+    match v0.mapM natOf? with
+    | some [n1, n2] =>
+      let vv := vs.drop 1
+      (s, showVV (VecTools.resize2 0.0 vv n1 n2),
+        match impl with
+        | none => "-"
+        | some t => match implVV? t with
+          | some g => checks [("resize2_spec", g.length == n1 && g.all (·.length == n2) &&
+              (List.range n1).all (fun i => (List.range n2).all (fun j =>
+                match g[i]? with
+                | some row => match row[j]? with
+                  | some x => showF x == showF (match vv[i]? with
+                      | some r => (match r[j]? with | some y => y | none => 0.0)
+                      | none => 0.0)
+                  | none => false
+                | none => false)))]
+          | none => "FAIL:resize2_spec")
+    | _ => bad
+  | "resize3" =>
+    match v0.mapM natOf? with
+    | some [a1, a2, a3, n1, n2, n3] =>
+      let start := List.replicate a1 (List.replicate a2 (List.replicate a3 (1.0 : Float)))
+      (s, dims3 (VecTools.resize3 0.0 start n1 n2 n3),
+        match impl with
+        | none => "-"
+        | some t =>
+          let want := [toString n1, (if n1 == 0 then "-" else toString n2), (if n1 == 0 || n2 == 0 then "-" else toString n3),
+                       showF (Float.ofNat (Nat.min a1 n1 * Nat.min a2 n2 * Nat.min a3 n3))]
+          if t == want then "ok" else "FAIL:resize_spec")
+    | _ => bad
+  | "resize4" =>
+    match v0.mapM natOf? with
+    | some [a1, a2, a3, a4, n1, n2, n3, n4] =>
+      let start := List.replicate a1 (List.replicate a2 (List.replicate a3 (List.replicate a4 (1.0 : Float))))
+      (s, dims4 (VecTools.resize4 0.0 start n1 n2 n3 n4),
+        match impl with
+        | none => "-"
+        | some t =>
+          let want := [toString n1, (if n1 == 0 then "-" else toString n2), (if n1 == 0 || n2 == 0 then "-" else toString n3),
+                       (if n1 == 0 || n2 == 0 || n3 == 0 then "-" else toString n4),
+                       showF (Float.ofNat (Nat.min a1 n1 * Nat.min a2 n2 * Nat.min a3 n3 * Nat.min a4 n4))]
+          if t == want then "ok" else "FAIL:resize_spec")
+    | _ => bad
+  -- ------------------------------------------------------------ continuous entropy, given the kernel densities
+  | "shannoncont" =>
+    match v0, impl with
+    | [base], some t =>
+      if (t.head?.getD "").startsWith "exc:" then (s, "no-exception-expected", "FAIL:shannonContinuous_spec") else
+      match splitTok ";" t with
+      | [[r], ds] => match implFloat? r, implVec? ds with
+        | some g, some dens =>
+          let m := VecTools.shannonContinuousOf dens v1.length base
+          (s, showF m ++ " ; " ++ showV dens,
+            checks [("shannonContinuous_spec", dens.length == v1.length &&
+              (!(dens.all (fun d => finite d && d > 0.0)) ||
+                fclose g (-(fsum (dens.map (fun d => Float.log d / Float.log base))) / Float.ofNat v1.length) 1e-9))])
+        | _, _ => (s, "unparsable", "FAIL:shannonContinuous_spec")
+      | _ => (s, "unparsable", "FAIL:shannonContinuous_spec")
+    | [_], none => (s, "-", "-")
+    | _, _ => bad
+  | "micont" =>
+    match v0, impl with
+    | [base], some t =>
+      if v1.length != v2.length then
+        (s, showRes showF (VecTools.miContinuousOf v1.length v2.length [] [] [] base), expectErr impl "mismatch_raises" .dimension)
+      else if (t.head?.getD "").startsWith "exc:" then (s, "no-exception-expected", "FAIL:miContinuous_spec") else
+      match (splitTok ";" t).mapM implVec? with
+      | some [[g], d12, d1, d2] =>
+        let m := VecTools.miContinuousOf v1.length v2.length d12 d1 d2 base
+        (s, showRes showF m ++ " ; " ++ showV d12 ++ " ; " ++ showV d1 ++ " ; " ++ showV d2,
+          checks [("miContinuous_spec", d12.length == v1.length && d1.length == v1.length && d2.length == v1.length &&
+            (!((d12 ++ d1 ++ d2).all (fun d => finite d && d > 0.0)) ||
+              fclose g (fsum ((List.zip d12 (List.zip d1 d2)).map (fun p => Float.log (p.1 / (p.2.1 * p.2.2)) / Float.log base))
+                        / Float.ofNat v1.length) 1e-9))])
+      | _ => (s, "unparsable", "FAIL:miContinuous_spec")
+    | [_], none => (s, "-", "-")
+    | _, _ => bad
+  | _ => bad
 
 def step (s : St) (op : List String) (impl : Option (List String)) : St × String × String :=
   let bad : St × String × String := (s, "bad-op", "-")
@@ -386,6 +802,10 @@ def step (s : St) (op : List String) (impl : Option (List String)) : St × Strin
         if normalize && w.all (· > 0) then
           let m := Spec.meanW a w; let sc := Spec.meanW (a.map rabs) w
           [("center_spec", closeV g (a.map (· - m)) (a.map (fun x => rabs x + sc)))]
+        else if !normalize then
+          -- the weights are used as they are: the raw weighted sum is subtracted
+          let m := Spec.dot a w; let sc := Spec.dot (a.map rabs) (w.map rabs)
+          [("centerW_spec", closeV g (a.map (· - m)) (a.map (fun x => rabs x + sc)))]
         else []
       | _, _ => [])
   | "cov" | "var" | "sd" =>
@@ -449,7 +869,22 @@ def step (s : St) (op : List String) (impl : Option (List String)) : St × Strin
       if v0.length != v2.length || v1.length != v2.length then expectErr impl "mismatch_raises" .dimension
       else onScalar impl "cor_sq_le_one" fun g =>
         if allFinite v0 && allFinite v1 && v2.all (fun x => finite x && x > 0) && finite g then
-          [("cor_sq_le_one", g.abs ≤ 1.0 + 1e-6)] else [])
+          let range : List (String × Bool) := [("cor_sq_le_one", g.abs ≤ 1.0 + 1e-6)]
+          -- corW_spec: cov/(sd·sd) of the biased estimates on the weights actually used
+          let spec : List (String × Bool) := (match rats? v0, rats? v1, rats? v2, floatToRat? g with
+           | some x, some y, some wr, some gr =>
+             let sw := S wr
+             let wn := if normalize then wr.map (· / sw) else wr
+             match refCovW x x wn false false, refCovW y y wn false false, refCovW x y wn false false with
+             | some (A, sa), some (B, sb), some (C, _) =>
+               -- well-conditioned only when the variances are not cancellation noise
+               if A * 1048576 < sa || B * 1048576 < sb then [] else
+               [("corW_spec", rabs (gr * gr * A * B - C * C) ≤ pow2neg 14 * (A * B)),
+                ("corW_spec", (gr ≥ 0) == (C ≥ 0) || rabs gr ≤ pow2neg 7)]
+             | _, _, _ => []
+           | _, _, _, _ => [])
+          range ++ spec
+        else [])
   | "shannon" =>
     match v0 with
     | [base] =>
@@ -542,8 +977,8 @@ def step (s : St) (op : List String) (impl : Option (List String)) : St × Strin
     (s, showV (VecTools.appendAll vs), onVec impl "appendAll_spec" fun g =>
       [("appendAll_spec", showV g == showV vs.flatten)])
   | "union" =>
-    (s, showV (VecTools.vectorUnion feq v0 v1), onVec impl "union_iff" fun g =>
-      if noNaN v0 && noNaN v1 then [("union_iff", decide (IsUnion feq v0 v1 g))] else [])
+    (s, showV (VecTools.vectorUnion feq v0 v1), onVec impl "union_shape" fun g =>
+      if noNaN v0 && noNaN v1 then [("union_shape", decide (IsUnionList feq [v0, v1] g))] else [])
   | "inter" =>
     (s, showV (VecTools.vectorIntersection feq v0 v1), onVec impl "inter_iff" fun g =>
       if noNaN v0 && noNaN v1 then
@@ -655,10 +1090,43 @@ def step (s : St) (op : List String) (impl : Option (List String)) : St × Strin
           a.1.1 > b.1.1 || (a.1.1 == b.1.1 && a.1.2 ≤ b.1.2))).map (·.2)
         [("fdr_spec", decide (IsFdrVia v0 g σ))]
       else [("fdr_spec", !(noNaN v0))])
-  | _ => bad
+  | _ => step2 s name flags vs impl
 where
   log2 : Float := Float.log 2.0
 
-def machine : Machine St := { init := fun _ => {}, step := step }
+/-- calls that leave trailing arguments to their defaults (`dcov`, `dsdw`, `dshannon`, …; `…1` =
+only the first option given) are the explicit calls with the defaults of the declarations -/
+def withDefaults (name : String) (args : List String) : Option (List String) :=
+  let u := showBool VecTools.dfltUnbiased
+  let n := showBool VecTools.dfltNormalizeWeights
+  let b := Hex.ofFloat (VecTools.dfltBase : Float)
+  match name with
+  | "dcov" => some ("cov" :: u :: args)
+  | "dvar" => some ("var" :: u :: args)
+  | "dsd" => some ("sd" :: u :: args)
+  | "dmeanw" => some ("meanw" :: n :: args)
+  | "dcenterw" => some ("centerw" :: n :: args)
+  | "dcorw" => some ("corw" :: n :: args)
+  | "dcovw" => some ("covw4" :: u :: n :: args)
+  | "dvarw" => some ("varw4" :: u :: n :: args)
+  | "dsdw" => some ("sdw" :: u :: n :: args)
+  | "dcovw1" => match args with | f :: rest => some ("covw4" :: f :: n :: rest) | [] => none
+  | "dvarw1" => match args with | f :: rest => some ("varw4" :: f :: n :: rest) | [] => none
+  | "dsdw1" => match args with | f :: rest => some ("sdw" :: f :: n :: rest) | [] => none
+  | "dshannon" => some ("shannon" :: b :: ";" :: args)
+  | "dshannondisc" => some ("shannondisc" :: b :: ";" :: args)
+  | "dmidisc" => some ("midisc" :: b :: ";" :: args)
+  | "dshannoncont" => some ("shannoncont" :: b :: ";" :: args)
+  | "dmicont" => some ("micont" :: b :: ";" :: args)
+  | _ => none
+
+def stepTop (s : St) (op : List String) (impl : Option (List String)) : St × String × String :=
+  match op with
+  | name :: args => match withDefaults name args with
+    | some op' => step s op' impl
+    | none => step s op impl
+  | [] => step s op impl
+
+def machine : Machine St := { init := fun _ => {}, step := stepTop }
 
 end Bpp.Drive.C07
